@@ -2,6 +2,8 @@ package checks
 
 import (
 	"fmt"
+	"sort"
+	"strings"
 
 	h "verif/harness"
 	"verif/model"
@@ -196,6 +198,73 @@ func availabilityMonitor(prefix string) func(c *Ctx) []Violation {
 			}
 		default:
 			c.Hit("abstain_availability_unknown")
+		}
+		return vs
+	}
+}
+
+// stabilityMonitor (C02): what a scope resolves a key to does not change
+// between two successful Invokes from that scope unless a registration was
+// accepted in between — values are cached, constructors and decorators run
+// once, so the same (scope, key) keeps yielding the identical instance (for a
+// non-soft group: the identical multiset of instances).
+func stabilityMonitor(prefix string) func(c *Ctx) []Violation {
+	return func(c *Ctx) []Violation {
+		cur := c.Step
+		if cur.Op.Kind != h.OpInvoke || !cur.V.OK || cur.Op.Fn == nil {
+			return nil
+		}
+		var vs []Violation
+		last := map[string]string{}
+		log := c.Run.RT.Log
+		for _, st := range c.Run.Steps {
+			switch st.Op.Kind {
+			case h.OpProvide, h.OpDecorate, h.OpScope:
+				if st.V.OK {
+					last = map[string]string{}
+				}
+				continue
+			case h.OpInvoke:
+			default:
+				continue
+			}
+			if !st.V.OK || st.Op.Fn == nil || st.Inst == "" {
+				continue
+			}
+			leaves := st.Op.Fn.PLeaves()
+			for i := st.LogFrom; i < st.LogTo && i < len(log); i++ {
+				e := log[i]
+				if e.Kind != u.EvEnter || e.Fn != st.Inst {
+					continue
+				}
+				for _, a := range e.Args {
+					if a.Leaf >= len(leaves) {
+						continue
+					}
+					l := leaves[a.Leaf]
+					if l.Key.IsGroup() && l.Soft {
+						continue
+					}
+					var ss []string
+					for _, t := range a.Toks {
+						if t.IsZero() {
+							ss = append(ss, "zero")
+						} else {
+							ss = append(ss, fmt.Sprintf("%s#%d", t.String(), t.Serial))
+						}
+					}
+					sort.Strings(ss)
+					sig := strings.Join(ss, ",")
+					k := fmt.Sprintf("s%d|%v", st.Op.Scope, l.Key)
+					if prev, ok := last[k]; ok && prev != sig && st == cur {
+						vs = append(vs, Violation{Rule: prefix + "/key-changed-instance-without-registration", Detail: fmt.Sprintf("%s received [%s] for %v; an earlier Invoke from the same scope received [%s] and nothing was registered in between", st.Op, sig, l.Key, prev)})
+					}
+					if st == cur {
+						c.Hit("stable_deliveries_checked")
+					}
+					last[k] = sig
+				}
+			}
 		}
 		return vs
 	}
